@@ -28,6 +28,18 @@ class Tr(ExprTr):
             if isinstance(node.right, ast.Constant) and node.right.value == 2:
                 return f"(MaskGeom.sq {self.int(node.left)})"
             raise Untranslatable(f"power `{text}`")
+        if isinstance(node, ast.Call):
+            f = ast.unparse(node.func)
+            # integer-valued numpy float idioms: floor(a / b), ceil(a / b), round(e).astype(int), e.astype(int)
+            if f in ("np.floor", "np.ceil") and len(node.args) == 1 and isinstance(node.args[0], ast.BinOp) \
+                    and isinstance(node.args[0].op, ast.Div):
+                a, b = self.int(node.args[0].left), self.int(node.args[0].right)
+                return f"(Int.fdiv {a} {b})" if f == "np.floor" else f"(-(Int.fdiv (-{a}) {b}))"
+            if isinstance(node.func, ast.Attribute) and node.func.attr == "astype" and len(node.args) == 1 \
+                    and ast.unparse(node.args[0]) == "int":
+                return self.int(node.func.value)
+            if f == "np.round" and len(node.args) == 1:
+                return self.int(node.args[0])
         return super().int(node)
 
 
@@ -63,6 +75,19 @@ def not_in_guard(var_text, lean_var):
                 body = " || ".join(f"({lean_var} == ({c} : Int))" for c in consts) or "false"
                 return emit_def(k.name, k.params, [], f"(!({body}))", "Bool")
         raise Untranslatable("`not in` rank guard not found")
+
+    return build
+
+
+MGI = ("DirectVerif.Model.MaskInterior",)
+
+
+def tr_assign(binds, target, nth=0):
+    """right-hand side of the nth assignment to `target`, translated with the numpy idioms of `Tr`"""
+
+    def build(k, fn):
+        st = find_assign(fn, target, nth)
+        return emit_def(k.name, k.params, [], Tr(binds).int(st.value))
 
     return build
 
@@ -106,6 +131,32 @@ register("C04", [
            assign_value({"num_cols": "num_cols"}, "poslen"), imports=MG),
     Kernel("magic_neglen", F, "MagicMaskFunc.mask_func", ["num_cols"], "MaskGeom.magicNegLen",
            assign_value({"num_cols": "num_cols"}, "neglen"), imports=MG),
+    # k-t grid helpers
+    Kernel("kt_linear_x", F, "KtBaseMaskFunc.linear_indices_to_2d_coordinates", ["idx", "row"],
+           "(fun idx row => (MaskGeom.linear2d idx row).1)", tr_assign({"indices": "idx", "row_length": "row"}, "x_coords"),
+           imports=MGI),
+    Kernel("kt_linear_y", F, "KtBaseMaskFunc.linear_indices_to_2d_coordinates", ["idx", "row"],
+           "(fun idx row => (MaskGeom.linear2d idx row).2)", tr_assign({"indices": "idx", "row_length": "row"}, "y_coords"),
+           imports=MGI),
+    Kernel("kt_phase_corrected", F, "KtBaseMaskFunc.resolve_duplicates_on_kt_grid", ["phase", "ny"],
+           "(fun phase ny => phase + MaskGeom.halfUp ny)", tr_assign({"phase": "phase", "ny": "ny"}, "phase_corrected"),
+           imports=MGI),
+    Kernel("kt_time_corrected", F, "KtBaseMaskFunc.resolve_duplicates_on_kt_grid", ["time", "nt"],
+           "(fun time nt => time + MaskGeom.halfUp nt)", tr_assign({"time": "time", "nt": "nt"}, "time_corrected"),
+           imports=MGI),
+    Kernel("kt_trajectory_index", F, "KtBaseMaskFunc.resolve_duplicates_on_kt_grid", ["tc", "pc", "ny"],
+           "(fun tc pc ny => (tc - 1) * ny + pc)",
+           tr_assign({"time_corrected": "tc", "phase_corrected": "pc", "ny": "ny"}, "trajectory_indices"), imports=MGI),
+    Kernel("kt_uniform_ph", F, "KtUniformMaskFunc.mask_func", ["ind", "num_cols"],
+           "(fun ind n => ind % n - n / 2)", tr_assign({"ind": "ind", "num_cols": "num_cols"}, "ph"), imports=MGI),
+    Kernel("kt_uniform_ti", F, "KtUniformMaskFunc.mask_func", ["ind", "num_cols", "nt"],
+           "(fun ind n nt => ind / n - nt / 2)", tr_assign({"ind": "ind", "num_cols": "num_cols", "nt": "nt"}, "ti"), imports=MGI),
+    Kernel("kt_uniform_inds", F, "KtUniformMaskFunc.mask_func", ["ph", "ti", "num_cols", "nt"],
+           "(fun ph ti n nt => n * (ti + nt / 2) + (ph + n / 2))",
+           tr_assign({"ph": "ph", "ti": "ti", "num_cols": "num_cols", "nt": "nt"}, "inds"), imports=MGI),
+    Kernel("kt_gaussian_inds", F, "KtGaussian1DMaskFunc.mask_func", ["ph", "ti", "num_cols", "nt"],
+           "(fun ph ti n nt => n * (ti + nt / 2) + (ph + n / 2))",
+           tr_assign({"ph": "ph", "ti": "ti", "num_cols": "num_cols", "nt": "nt"}, "inds"), imports=MGI),
 ])
 
 
@@ -291,6 +342,26 @@ def return_table(tree) -> str:
     return "def return_table : List (String × List (Bool × Bool)) :=\n  [" + ",\n   ".join(rows) + "]\n"
 
 
+def clamp_table(tree) -> str:
+    """`inds[inds <= c] = v` statements of the two k-t line generators"""
+    classes = _classes(tree)
+    out = []
+    for name in ("KtUniform", "KtGaussian1D"):
+        fn = _resolve(classes, name + "MaskFunc", "mask_func")
+        found = "none"
+        for st in all_stmts(fn):
+            if (isinstance(st, ast.Assign) and isinstance(st.targets[0], ast.Subscript) and ast.unparse(st.targets[0].value) == "inds"
+                    and isinstance(st.targets[0].slice, ast.Compare)):
+                c = st.targets[0].slice
+                if (ast.unparse(c.left) == "inds" and isinstance(c.ops[0], ast.LtE) and isinstance(c.comparators[0], ast.Constant)
+                        and isinstance(st.value, ast.Constant)):
+                    found = f"some (({c.comparators[0].value} : Int), ({st.value.value} : Int))"
+                else:
+                    raise Untranslatable(f"unexpected clamp `{ast.unparse(st)}`")
+        out.append(f"def clamp_{name} : Option (Int × Int) := {found}\n")
+    return "".join(out)
+
+
 def build_table(tree) -> str:
     fn = find_function(tree, "build_masking_function")
     src = ast.unparse(fn).replace(" ", "")
@@ -318,12 +389,259 @@ def build_table(tree) -> str:
             f"def kt_mode_pinned_dynamic : Bool := {'true' if pinned else 'false'}\n")
 
 
+
+# ---------------------------------------------------------------------------------------------------
+# per-generator assembly: a small abstract interpretation of `mask_func` that tracks, for every array variable,
+# the boolean expression "content of one frame" over the atoms  acs | draw | other  (`draw` = something drawn /
+# rasterised for THIS frame, `other` = anything else: a value shared between frames, another frame, unknown)
+ACS_FUNCS = {"self.center_mask_func", "centered_disk_mask", "self.zero_pad_to_center", "self.circular_centered_mask"}
+PASS_FUNCS = {"self._reshape_and_add_coil_axis", "self._broadcast_mask", "np.stack", "torch.stack", "np.tile",
+              "torch.from_numpy", "np.flip", "np.fft.fftshift", "self.crop_center"}
+PASS_METHODS = {"squeeze", "astype", "repeat", "reshape", "copy", "transpose", "bool", "ravel"}
+DRAW_FUNCS = {"self.circus_radial_mask", "self.circus_spiral_mask", "self.poisson", "rotate", "toeplitz"}
+KERNELS = {"gaussian_mask_1d", "gaussian_mask_2d"}
+OTHER, ACS, DRAW, FF, EMPTY = ("other",), ("acs",), ("draw",), ("ff",), ("empty",)
+
+
+class Asm:
+    def __init__(self, classes, name):
+        self.classes, self.name = classes, name
+        self.kt = name.startswith("Kt")
+        self.env: dict[str, tuple] = {}
+        self.taint: set[str] = set()            # names holding something drawn per frame
+        self.taint_shared: set[str] = set()     # names holding something drawn once, outside the frame loop
+        self.returns: dict[str, list] = {"acs": [], "mask": []}
+        self.poisson_ors_acs = None
+
+    # -- expressions
+    def has_draw(self, node) -> bool:
+        return self.level(node, {"frame": True}) is not None
+
+    def level(self, node, ctx):
+        """None: nothing drawn in `node`; "frame": depends on something drawn for this frame; "shared": only on
+        values drawn once for all frames (outside the frame loop)"""
+        direct = shared = framed = False
+        for n in ast.walk(node):
+            if isinstance(n, ast.Attribute) and ast.unparse(n).startswith("self.rng."):
+                direct = True
+            if isinstance(n, ast.Call) and ast.unparse(n.func) in DRAW_FUNCS:
+                direct = True
+            if isinstance(n, ast.Name):
+                framed = framed or n.id in self.taint
+                shared = shared or n.id in self.taint_shared
+        if framed or (direct and (ctx["frame"] or self.kt)):
+            return "frame"
+        if direct or shared:
+            return "shared"
+        return None
+
+    def fresh(self, ctx, node=None):
+        if node is not None:
+            return DRAW if self.level(node, ctx) == "frame" else OTHER
+        return DRAW if (ctx["frame"] or self.kt) else OTHER
+
+    def ab(self, node, ctx) -> tuple:
+        if isinstance(node, ast.Name):
+            if node.id in self.env:
+                return self.env[node.id]
+            return DRAW if node.id in self.taint else OTHER
+        if isinstance(node, ast.Subscript):
+            base = node.value
+            if isinstance(base, ast.Name) and base.id in self.env:
+                idx = node.slice
+                if ctx["loop"] and isinstance(idx, ast.Constant) and isinstance(idx.value, int) and idx.value >= 0:
+                    return OTHER                      # a fixed frame read inside the frame loop
+                return self.env[base.id]
+            return self.ab(base, ctx)
+        if isinstance(node, ast.Call):
+            f = ast.unparse(node.func)
+            if f in ACS_FUNCS:
+                return ACS
+            if f == "self.poisson":
+                if self.poisson_ors_acs is None:
+                    fn = _resolve(self.classes, self.name + "MaskFunc", "poisson")
+                    self.poisson_ors_acs = any(
+                        isinstance(st, ast.Assign) and ast.unparse(st.targets[0]) == "mask" and isinstance(st.value, ast.BinOp)
+                        and isinstance(st.value.op, ast.BitOr) and ast.unparse(st.value.left) == "mask"
+                        and ast.unparse(st.value.right).startswith("centered_disk_mask(") for st in all_stmts(fn))
+                d = self.fresh(ctx)
+                return ("or", d, ACS) if self.poisson_ors_acs else d
+            if f in ("np.logical_or", "torch.logical_or") and len(node.args) == 2:
+                return ("or", self.ab(node.args[0], ctx), self.ab(node.args[1], ctx))
+            if f == "np.concatenate" and node.args and isinstance(node.args[0], (ast.Tuple, ast.List)) and node.args[0].elts:
+                out = self.ab(node.args[0].elts[0], ctx)          # parts of one frame
+                for e in node.args[0].elts[1:]:
+                    out = ("or", out, self.ab(e, ctx))
+                return out
+            if f in PASS_FUNCS and node.args:
+                a = node.args[0]
+                if isinstance(a, (ast.List, ast.Tuple)) and len(a.elts) == 1:
+                    a = a.elts[0]
+                return self.ab(a, ctx)
+            if isinstance(node.func, ast.Attribute) and node.func.attr in PASS_METHODS:
+                return self.ab(node.func.value, ctx)
+            if f in ("np.zeros", "torch.zeros"):
+                return FF
+            if self.has_draw(node):
+                return self.fresh(ctx, node)
+            return OTHER
+        if isinstance(node, ast.BinOp) and isinstance(node.op, (ast.BitOr, ast.Add)):
+            return ("or", self.ab(node.left, ctx), self.ab(node.right, ctx))
+        if isinstance(node, ast.Compare) and len(node.ops) == 1:
+            if isinstance(node.ops[0], ast.Gt) and ast.unparse(node.comparators[0]) == "0":
+                return self.ab(node.left, ctx)          # `mask > 0` after `mask + acs_mask`
+            if self.has_draw(node):
+                return self.fresh(ctx, node)
+            return OTHER
+        if isinstance(node, ast.IfExp):
+            return ("ite", self.ab(node.body, ctx), self.ab(node.orelse, ctx))
+        if isinstance(node, ast.Attribute) and node.attr == "T":
+            return self.ab(node.value, ctx)
+        if isinstance(node, (ast.List, ast.Tuple)):
+            if not node.elts:
+                return EMPTY
+            if len(node.elts) == 1:
+                return self.ab(node.elts[0], ctx)
+        if self.has_draw(node):
+            return self.fresh(ctx, node)
+        return OTHER
+
+    # -- statements
+    def add_taint(self, name, node, ctx):
+        lv = self.level(node, ctx)
+        if lv == "frame":
+            self.taint.add(name)
+        elif lv == "shared":
+            self.taint_shared.add(name)
+
+    def run(self, stmts, ctx):
+        for st in stmts:
+            self.stmt(st, ctx)
+
+    def stmt(self, st, ctx):
+        if isinstance(st, ast.Assign) and len(st.targets) == 1:
+            tgt, val = st.targets[0], st.value
+            if isinstance(tgt, ast.Name):
+                v = self.ab(val, ctx)
+                if self.has_draw(val):
+                    self.add_taint(tgt.id, val, ctx)
+                    if v == OTHER:
+                        v = self.fresh(ctx, val)
+                if v != OTHER or tgt.id in self.env:
+                    self.env[tgt.id] = v
+                return
+            if isinstance(tgt, ast.Tuple):
+                if "choose_acceleration" in ast.unparse(val):
+                    return                                   # the (cf, R) choice is shared by design
+                for e in tgt.elts:
+                    if isinstance(e, ast.Name) and self.has_draw(val):
+                        self.add_taint(e.id, val, ctx)
+                return
+            if (isinstance(tgt, ast.Subscript) and isinstance(tgt.value, ast.Call) and isinstance(tgt.value.func, ast.Attribute)
+                    and tgt.value.func.attr == "ravel" and isinstance(tgt.value.func.value, ast.Name)):
+                tgt = ast.Subscript(value=tgt.value.func.value, slice=tgt.slice, ctx=tgt.ctx)      # X.ravel()[idx] = v
+            if isinstance(tgt, ast.Subscript) and isinstance(tgt.value, ast.Name):
+                base, idx = tgt.value.id, tgt.slice
+                both = ast.Tuple(elts=[idx, val], ctx=ast.Load())
+                if self.has_draw(both):
+                    self.add_taint(base, both, ctx)
+                if base not in self.env:
+                    return
+                if isinstance(idx, ast.Name) and idx.id == ctx.get("var"):
+                    self.env[base] = self.ab(val, ctx)                 # X[i] = E
+                elif self.has_draw(both) and ast.unparse(val) in ("True", "1"):
+                    self.env[base] = ("or", self.env[base], self.fresh(ctx, both))    # X[i, drawn] = True / X[drawn::k] = True
+                elif self.has_draw(both):
+                    self.env[base] = OTHER
+                else:
+                    self.env[base] = OTHER
+                return
+            return
+        if isinstance(st, ast.Expr) and isinstance(st.value, ast.Call):
+            c = st.value
+            f = ast.unparse(c.func)
+            if isinstance(c.func, ast.Attribute) and c.func.attr == "append" and isinstance(c.func.value, ast.Name):
+                base = c.func.value.id
+                if base in self.env:
+                    v = self.ab(c.args[0], ctx)
+                    old = self.env[base]
+                    self.env[base] = v if old in (EMPTY, v) else ("ite", old, v)
+                return
+            if f in KERNELS:
+                for a in c.args:
+                    b = a.value if isinstance(a, ast.Subscript) else a
+                    if isinstance(b, ast.Name) and b.id in self.env:
+                        self.env[b.id] = ("or", self.env[b.id], self.fresh(ctx, c))
+                        return
+            return
+        if isinstance(st, ast.For):
+            it = ast.unparse(st.iter).replace(" ", "")
+            if it == "range(num_slc_or_time)":
+                self.run(st.body, dict(ctx, loop=True, frame=True, var=ast.unparse(st.target)))
+            else:
+                self.run(st.body, ctx)
+            return
+        if isinstance(st, ast.With):
+            self.run(st.body, ctx)
+            return
+        if isinstance(st, ast.If):
+            t = ast.unparse(st.test)
+            if t == "return_acs":
+                self.run(st.body, dict(ctx, branch="acs"))
+                return
+            before = dict(self.env)
+            self.run(st.body, ctx)
+            a = dict(self.env)
+            self.env = dict(before)
+            self.run(st.orelse, dict(ctx, frame=True) if t == FRAMED else ctx)
+            b = self.env
+            self.env = {k: (a[k] if a.get(k) == b.get(k) else
+                            a[k] if k not in b or b[k] == before.get(k) and not st.orelse else
+                            b[k] if k not in a else ("ite", a[k], b[k])) for k in set(a) | set(b)}
+            return
+        if isinstance(st, ast.Return) and st.value is not None:
+            self.returns[ctx.get("branch", "mask")].append(self.ab(st.value, ctx))
+            return
+
+
+def _lean_bexp(e) -> str:
+    k = e[0]
+    if k in ("acs", "draw", "other", "ff"):
+        return {"acs": ".acs", "draw": ".draw", "other": ".other", "ff": ".ff"}[k]
+    if k == "empty":
+        return ".other"
+    return f"(.{k} {_lean_bexp(e[1])} {_lean_bexp(e[2])})"
+
+
+def _join(vals):
+    if not vals:
+        return OTHER
+    out = vals[0]
+    for v in vals[1:]:
+        if v != out:
+            out = ("ite", out, v)
+    return out
+
+
+def assembly_table(tree) -> str:
+    classes = _classes(tree)
+    rows = []
+    for name in GENERATORS:
+        fn = _resolve(classes, name + "MaskFunc", "mask_func")
+        a = Asm(classes, name)
+        a.run(fn.body, {"loop": False, "frame": False, "var": None})
+        rows.append(f'("{name}", {_lean_bexp(_join(a.returns["mask"]))}, {_lean_bexp(_join(a.returns["acs"]))})')
+    return ("def assembly_table : List (String × MaskGeom.BExp × MaskGeom.BExp) :=\n  [" + ",\n   ".join(rows) + "]\n")
+
 FALLBACKS = {
     "reshape_tables": ("def reshape_assign : List (Nat × Nat) := MaskGeom.reshapeAssign\n"
                        "def reshape_assign_framed : List (Nat × Nat) := MaskGeom.reshapeAssignFramed\n"),
     "broadcast_table": "def broadcast_branches : List (Nat × List Nat) := MaskGeom.broadcastBranches\n",
     "return_table": ("def return_table : List (String × List (Bool × Bool)) :=\n"
                      "  MaskGeom.Gen.all.map fun g => (g.name, [(true, true), (true, true)])\n"),
+    "assembly_table": ("def assembly_table : List (String × MaskGeom.BExp × MaskGeom.BExp) :=\n"
+                       "  MaskGeom.Gen.all.map fun g => (g.name, .or .draw .acs, .acs)\n"),
+    "clamp_table": "def clamp_KtUniform : Option (Int × Int) := some (0, 1)\ndef clamp_KtGaussian1D : Option (Int × Int) := none\n",
     "build_table": ("def build_table : List (String × Bool × Bool × Bool × Bool) := MaskGeom.buildTable\n"
                     "def kt_mode_pinned_dynamic : Bool := true\n"),
 }
@@ -338,7 +656,7 @@ def _extra():
     except Untranslatable as e:
         tree, err = None, e
     for key, fn in (("reshape_tables", reshape_tables), ("broadcast_table", broadcast_table),
-                    ("return_table", return_table), ("build_table", build_table)):
+                    ("return_table", return_table), ("assembly_table", assembly_table), ("clamp_table", clamp_table), ("build_table", build_table)):
         try:
             if tree is None:
                 raise err
